@@ -48,24 +48,9 @@ theorem running_row_not_fixed :
       | .ok _ => none | .error e => some e) = some .attributeError := by
   constructor <;> rfl
 
-/-- `<div style="float:left">a <span> b</span></div>`: `process_whitespace` hands the state
-"a collapsible space precedes" from child to child only `if box.is_in_normal_flow() and …`: inside a
-floated (absolutely positioned, running) box every run starts from the state the box was entered with,
-so the space that begins ` b` stays after the one that ends `a `: two consecutive collapsible spaces in
-one inline formatting context.  In a box in normal flow the same children give `a b`.  Refutes
-`whitespace_across_boxes` without its hypothesis that the box is in normal flow. -/
-theorem out_of_flow_container_spaces_not_collapsed :
-    leafText (pw (.mk .BlockBox { flt := true } {} {} [] [tx [97, 32], bx .InlineBox [tx [32, 98]]] []) false).1
-      = [97, 32, 32, 98] ∧
-    leafText (pw (.mk .BlockBox { abs := true } {} {} [] [tx [97, 32], tx [32, 98]] []) false).1
-      = [97, 32, 32, 98] ∧
-    leafText (pw (bx .BlockBox [tx [97, 32], bx .InlineBox [tx [32, 98]]]) false).1 = [97, 32, 98] ∧
-    noDoubleSp [97, 32, 32, 98] = false := by
-  refine ⟨by rfl, by rfl, by rfl, by rfl⟩
-
 /-! ## Regression cases of repaired findings (`fixed:` lines of known_findings.txt)
 
-The three inputs below were witnesses of defects; the code has been repaired and the statements now
+The inputs below were witnesses of defects; the code has been repaired and the statements now
 say what the repaired code does on the same inputs.  The general theorems are in `Props/C08.lean`
 (`flex_grid_keeps_wrappers`, `is_whitespace_is_css_white_space`, `marker_display_none`). -/
 
@@ -94,5 +79,17 @@ theorem nbsp_between_rows_kept :
 theorem marker_display_none_no_box :
     markerToBox ⟨{ display := ["none"] }, .inhibit, some [8226, 32]⟩ {} true 3 = .ok ([], 3) := by
   rfl
+
+/-- `<div style="float:left">a <span> b</span></div>` (fixed by b7d94f7): the state "a collapsible space
+precedes" goes from child to child inside a floated / absolutely positioned box as in normal flow: `a b`, one
+space.  General statement: `C08.whitespace_across_boxes_any_container`. -/
+theorem out_of_flow_container_spaces_collapsed :
+    leafText (pw (.mk .BlockBox { flt := true } {} {} [] [tx [97, 32], bx .InlineBox [tx [32, 98]]] []) false).1
+      = [97, 32, 98] ∧
+    leafText (pw (.mk .BlockBox { abs := true } {} {} [] [tx [97, 32], tx [32, 98]] []) false).1
+      = [97, 32, 98] ∧
+    leafText (pw (bx .BlockBox [tx [97, 32], bx .InlineBox [tx [32, 98]]]) false).1 = [97, 32, 98] ∧
+    noDoubleSp [97, 32, 98] = true := by
+  refine ⟨by rfl, by rfl, by rfl, by rfl⟩
 
 end Wp.Witness.C08
